@@ -17,7 +17,8 @@ failure atomicity (both backends): on a fresh reader, after the faulted call has
 correspondence: the model's verdict (Model/Faults.v predict_raises_file / predict_raises_blob evaluated inside Coq on
   the recorded read plan, file length and fault assignment) must equal "the implementation raised".
 """
-import os, sys, threading, itertools
+import os, sys, threading, itertools, queue
+import concurrent.futures, concurrent.futures._base
 sys.path.insert(0, os.path.dirname(os.path.abspath(__file__)))
 from common import *
 a = parse_args()
@@ -38,6 +39,8 @@ KINDS = ('exc', 'short', 'empty')
 N_CONTIG, N_OTHER = (2, 1) if QUICK and not a.search else (3, 2)
 P_NO_CONTIG = 1.0 if not QUICK else 0.5 if a.search else 0.25
 P_BLOB_FOLLOW = 1.0 if a.search else 0.5       # quick tier: share of the blob fault cases that get a follow-up sequence
+REAL_SLEEP = time.sleep                        # the harness's own delays never go through a warped primitive
+WARP_S, STRAGGLER_S = 0.2, 0.6                 # time warp: every positive timeout becomes <= WARP_S; a straggler is held STRAGGLER_S
 
 
 # ------------------------------------------------------------------------------------------------ files
@@ -406,8 +409,11 @@ def run_local(label, path, kind):
 # ------------------------------------------------------------------------------------------------ blob backend
 class FakeBlob:
     """stand-in for azure BlobClient: download_blob(offset, length).readall(); completions are released one at a time in
-    an order drawn from `order_rng` among the requests in flight (controlled=True), faults keyed by (offset, length)"""
-    def __init__(self, path, order_rng=None, faults=None):
+    an order drawn from `order_rng` among the requests in flight (controlled=True; any object with a choice(list) method:
+    a random.Random, or Pick(-1) = the highest range in flight completes first), faults keyed by (offset, length);
+    `slow` {(offset, length): seconds} holds a request that long before it completes or fails (a straggler);
+    `by_ordinal` {k: (seconds, fault kind or None)} does both for the k-th request to ARRIVE, whatever its range"""
+    def __init__(self, path, order_rng=None, faults=None, slow=None, by_ordinal=None):
         self.blob_name = path
         self.data = open(path, 'rb').read()
         self.cv = threading.Condition()
@@ -418,6 +424,9 @@ class FakeBlob:
         self.faults = dict(faults or {})
         self.order_rng = order_rng
         self.max_inflight = 0
+        self.slow = dict(slow or {})
+        self.by_ordinal = dict(by_ordinal or {})
+        self.n_req = 0
 
     def download_blob(self, offset=None, length=None):
         return _Download(self, offset, length)
@@ -426,6 +435,11 @@ class FakeBlob:
         pass
 
     def _serve(self, off, length):
+        with self.cv:
+            k = self.n_req
+            self.n_req += 1
+            hold, kind_k = self.by_ordinal.pop(k, (0, None))
+            hold = max(hold, self.slow.pop((off, length), 0))
         if self.order_rng is not None:
             me = object()
             with self.cv:
@@ -450,10 +464,12 @@ class FakeBlob:
         else:
             with self.cv:
                 self.order.append((off, length))
-        kind = None
+        kind = kind_k
         with self.cv:
-            if (off, length) in self.faults:
+            if kind is None and (off, length) in self.faults:
                 kind = self.faults.pop((off, length))
+        if hold:
+            REAL_SLEEP(hold)
         if kind == 'exc':
             raise ConnectionError('injected blob failure')
         data = self.data[off:off + length]
@@ -462,6 +478,28 @@ class FakeBlob:
         elif kind == 'empty':
             data = b''
         return data
+
+
+class Pick:
+    """completion policy for the controlled FakeBlob: always the i-th of the requests in flight sorted by (offset, length)"""
+    def __init__(self, i):
+        self.i = i
+
+    def choice(self, xs):
+        return xs[self.i]
+
+
+class SlowCountingFile(CountingFile):
+    """hz.CountingFile whose read number k is held `slow[k]` seconds before it completes or fails (a straggler)"""
+    def __init__(self, path, faults=None, slow=None):
+        CountingFile.__init__(self, path, faults=faults)
+        self.slow = dict(slow or {})
+
+    def read(self, length=-1):
+        hold = self.slow.get(self.n, 0)
+        if hold:
+            REAL_SLEEP(hold)
+        return CountingFile.read(self, length)
 
 
 class _Download:
@@ -586,6 +624,285 @@ def run_blob(label, path, kind):
             R.count('constructor_fault')
 
 
+def local_sequence(path, calls, preload=False):
+    """outcome of the calls made one after the other on ONE local reader opened from the plain path: the reference for a
+    reader that serves the same calls from a preloaded copy (('value', canon) | ('raise', exception type) per call)"""
+    r = SgzReader(path, preload=preload)
+    out = []
+    for name, args in calls:
+        try:
+            out.append(('value', canon(do_call(r, name, args))))
+        except Exception as e:
+            out.append(('raise', type(e)))
+    r.close()
+    return out
+
+
+def spec_volume(path, kind):
+    """(call, canon of the true samples) from the specification decoder (no reader, no loader)"""
+    sp = SpecFile(path)
+    if kind == '3d':
+        return ('read_volume', ()), canon(np.ascontiguousarray(sp.volume()[:sp.n_il, :sp.n_xl, :sp.n_s]))
+    return ('read_subplane', (0, sp.tracecount, 0, sp.n_s)), canon(np.ascontiguousarray(sp.volume()[:sp.tracecount, :sp.n_s]))
+
+
+def check_calls(r, calls, ref, spec, info, faulty):
+    """every call on reader r against the reference sequence (and the whole volume against the specification decoder);
+    faulty: an injected fault preceded, so a call may also raise -- but it may never return different data"""
+    for (name, args), (tag, val) in zip(calls, ref):
+        inp = dict(info, then_call=[name, list(args)])
+        try:
+            got = canon(do_call(r, name, args))
+        except Exception as e:
+            if not faulty and not (tag == 'raise' and val is type(e)):
+                R.violation('oracle', inp, f'no request failed, but {name}{tuple(args)} on the preloaded blob reader raised '
+                                           f'{type(e).__name__}: {e}')
+            continue
+        if tag == 'value' and got != val:
+            R.violation('oracle', inp, f'{name}{tuple(args)} on the preloaded blob reader returned data that differs from what '
+                                       'the local reader returns' + (' (after a faulty request during the preload)' if faulty else
+                                                                     ' (no request failed: the result depends on the completion order)'))
+        elif (name, args) == spec[0] and got != spec[1]:
+            R.violation('oracle', inp, f'{name}{tuple(args)} on the preloaded blob reader differs from the volume decoded from the '
+                                       'file by the specification')
+        R.count('blob_preload_calls_checked')
+
+
+def run_blob_preload(label, path, kind, calls):
+    """SgzReader(<blob client>, preload=True): whatever requests the constructor issues, in whatever order they complete, a
+    reader that is returned serves every read call with the true data; a request that fails during construction makes the
+    constructor raise (or, at the very least, no later call return different data)"""
+    L = os.path.getsize(path)
+    ref = local_sequence(path, calls)
+    spec = spec_volume(path, kind)
+    if spec[0] in calls and ref[calls.index(spec[0])] != ('value', spec[1]):
+        # the reference itself: the local reader against the specification decoder
+        R.violation('oracle', {'file': label, 'backend': 'file', 'call': spec[0][0]},
+                    'the local reader returns a volume that differs from the one decoded from the file by the specification')
+    b = FakeBlob(path)
+    try:
+        r = SgzReader(b, preload=True)
+    except Exception as e:
+        R.violation('oracle', {'file': label, 'backend': 'blob', 'call': 'SgzReader(preload)'},
+                    f'fault-free preloading constructor raised {type(e).__name__}: {e}')
+        return
+    plan_c = list(b.order)
+    base = {'file': label, 'backend': 'blob', 'call': 'SgzReader(preload)', 'constructor_requests': len(plan_c)}
+    check_calls(r, calls, ref, spec, dict(base, completion='as issued'), False)
+    # (a) completion orders of the constructor's requests (and of the later header requests)
+    policies = [('lowest range in flight first', lambda: Pick(0)), ('highest range in flight first', lambda: Pick(-1))]
+    for t in range(2 if QUICK else 8):
+        sd = rng.randrange(2 ** 30)
+        policies.append((f'random({sd})', lambda sd=sd: random.Random(sd)))
+    for pname, mk in policies:
+        b = FakeBlob(path, order_rng=mk())
+        info = dict(base, completion=pname)
+        try:
+            r = SgzReader(b, preload=True)
+        except Exception as e:
+            R.violation('oracle', dict(info, completion_order=b.order[:12]), f'fault-free preloading constructor raised {type(e).__name__}: {e}')
+            continue
+        comp = list(b.order)
+        info['constructor_completion_order'] = comp[:12]
+        if sorted(comp) != sorted(plan_c):
+            R.count('blob_preload_request_set_varies')
+        check_calls(r, calls, ref, spec, info, False)
+        R.case(('blob-preload-order', label, pname, tuple(comp)), nontrivial=(comp != plan_c or b.max_inflight > 1))
+        R.count('blob_preload_order')
+        R.count('blob_preload_max_inflight_%d' % min(b.max_inflight, 20))
+    # (b) a fault on ANY request issued during construction (the k-th to arrive), free-running and with a drawn order
+    distinct = len(set(plan_c)) == len(plan_c)
+    for k in range(len(plan_c)):
+        for fk in KINDS:
+            controlled = rng.random() < 0.5
+            b = FakeBlob(path, order_rng=random.Random(rng.randrange(2 ** 30)) if controlled else None, by_ordinal={k: (0, fk)})
+            info = dict(base, fault=[[k, fk]], controlled=controlled)
+            raised = True
+            try:
+                r = SgzReader(b, preload=True)
+                raised = False
+            except Exception:
+                pass
+            if not raised:
+                check_calls(r, calls, ref, spec, info, True)
+            if distinct:
+                model_case('blob', L, [(k, fk)], plan_c, raised, info)
+            R.case(('blob-preload-open', label, k, fk, controlled), sample=info if k == len(plan_c) - 1 and fk == 'short' else None)
+            R.count('blob_preload_constructor_fault')
+
+
+# ------------------------------------------------------------------------------------------------ time warp
+class TimeWarp:
+    """While active, every waiting primitive that takes a timeout gives up after at most WARP_S seconds: a library that
+    waits for its range reads with a timeout (concurrent.futures.wait / as_completed / Future.result / Executor.map,
+    queue get / put, Event / Condition / Semaphore / Barrier waits, Thread.join) then sees the timeout EXPIRE while a
+    straggler request (held STRAGGLER_S > WARP_S) is still outstanding. Timeouts of None, zero or below WARP_S are left
+    alone, so code without timeouts runs unchanged. Patched: the classes themselves (every importer sees it), the functions
+    in concurrent.futures and concurrent.futures._base, and every binding of those functions inside seismic_zfp modules."""
+    hits = []                      # names of the primitives whose timeout was shortened
+
+    @staticmethod
+    def _wrap(orig, pos, label):
+        def warped(*args, **kw):
+            t = kw['timeout'] if 'timeout' in kw else args[pos] if len(args) > pos else None
+            if isinstance(t, (int, float)) and not isinstance(t, bool) and t > WARP_S:
+                TimeWarp.hits.append(label)
+                if 'timeout' in kw:
+                    kw['timeout'] = WARP_S
+                else:
+                    args = args[:pos] + (WARP_S,) + args[pos + 1:]
+            return orig(*args, **kw)
+        warped.__name__ = getattr(orig, '__name__', label)
+        warped.__wrapped__ = orig
+        return warped
+
+    def __enter__(self):
+        fb = concurrent.futures._base
+        targets = [(fb.Future, 'result', 1), (fb.Future, 'exception', 1),
+                   (queue.Queue, 'get', 2), (queue.Queue, 'put', 3),
+                   (threading.Event, 'wait', 1), (threading.Condition, 'wait', 1), (threading.Condition, 'wait_for', 2),
+                   (threading.Semaphore, 'acquire', 2), (threading.Barrier, 'wait', 1), (threading.Thread, 'join', 1),
+                   (fb, 'wait', 1), (fb, 'as_completed', 1), (concurrent.futures, 'wait', 1), (concurrent.futures, 'as_completed', 1)]
+        self.undo = []
+        replaced = {}
+        for owner, attr, pos in targets:
+            orig = owner.__dict__[attr] if isinstance(owner, type) else getattr(owner, attr)
+            w = replaced.get(id(orig)) or self._wrap(orig, pos, f'{getattr(owner, "__name__", owner)}.{attr}')
+            replaced[id(orig)] = w
+            self.undo.append((owner, attr, orig))
+            setattr(owner, attr, w)
+        try:
+            class WarpedSimpleQueue(queue.SimpleQueue):
+                def get(self_, block=True, timeout=None):
+                    if isinstance(timeout, (int, float)) and timeout > WARP_S:
+                        TimeWarp.hits.append('SimpleQueue.get')
+                        timeout = WARP_S
+                    return queue.SimpleQueue.get(self_, block, timeout)
+            orig_sq = queue.SimpleQueue
+            replaced[id(orig_sq)] = WarpedSimpleQueue
+            self.undo.append((queue, 'SimpleQueue', orig_sq))
+        except TypeError:
+            orig_sq = None
+        # names bound inside the library by `from ... import wait, as_completed, SimpleQueue`
+        for mname, mod in list(sys.modules.items()):
+            if mod is not None and (mname == 'seismic_zfp' or mname.startswith('seismic_zfp.')):
+                for attr, val in list(vars(mod).items()):
+                    if id(val) in replaced and not isinstance(val, type(sys)):
+                        self.undo.append((mod, attr, val))
+                        setattr(mod, attr, replaced[id(val)])
+        if orig_sq is not None:
+            queue.SimpleQueue = replaced[id(orig_sq)]
+        return self
+
+    def __exit__(self, *exc):
+        for owner, attr, orig in reversed(self.undo):
+            setattr(owner, attr, orig)
+        return False
+
+
+def timewarp_cases(files):
+    """(label, path, kind, backend, call, args, want, plan, straggler position, what the straggler does in the end)"""
+    names = ('read_crossline', 'read_zslice', 'read_subvolume') if QUICK else None
+    labels = ('np_default', 'np_zslice') if QUICK else None
+    cases = []
+    for label, path, kind in files:
+        if labels is not None and label not in labels:
+            continue
+        probe = ('read_volume', ()) if kind == '3d' else ('get_trace', (0,))
+        want_probe = canon(do_call(SgzReader(path), *probe))
+        seen = set()
+        for name, args in calls_for(path, kind):
+            if name in seen or (names is not None and name not in names):
+                continue
+            for backend in ('file', 'blob'):
+                h = CountingFile(path) if backend == 'file' else FakeBlob(path)
+                r = SgzReader(h)
+                log = h.all if backend == 'file' else h.order
+                n0 = len(log)
+                try:
+                    want = canon(do_call(r, name, args))
+                except Exception:
+                    continue
+                plan = list(log[n0:])
+                r.close()
+                if len(plan) < 2:
+                    continue             # not a fan-out / loop of range reads
+                seen.add(name)
+                cases += straggler_cases(label, path, kind, backend, name, args, want, plan)
+        for backend in ('file', 'blob'):
+            h = CountingFile(path) if backend == 'file' else FakeBlob(path)
+            SgzReader(h, preload=True).close()
+            plan = list(h.all if backend == 'file' else h.order)
+            cases += straggler_cases(label, path, kind, backend, 'SgzReader(preload)', probe, want_probe, plan)
+    return cases
+
+
+def straggler_cases(label, path, kind, backend, name, args, want, plan):
+    K = len(plan)
+    by_range = sorted(range(K), key=lambda k: plan[k])
+    spots = {'lowest range': by_range[0], 'highest range': by_range[-1], 'random': rng.randrange(K)}
+    out = []
+    for then in (None,) + KINDS:
+        for spot in (list(spots) if not QUICK or a.search else [rng.choice(list(spots))]):
+            out.append((label, path, kind, backend, name, args, want, plan, spots[spot], spot, then))
+    return out
+
+
+def run_timewarp_case(c):
+    label, path, kind, backend, name, args, want, plan, k, spot, then = c
+    info = {'file': label, 'backend': backend, 'call': name, 'args': list(args), 'reads': len(plan),
+            'straggler': [k, list(plan[k]), spot], 'held_s': STRAGGLER_S, 'straggler_then': then or 'succeeds',
+            'timeouts_capped_at_s': WARP_S}
+    raised, got = None, None
+    try:
+        if name == 'SgzReader(preload)':
+            if backend == 'file':
+                h = SlowCountingFile(path, faults={k: then} if then else None, slow={k: STRAGGLER_S})
+            else:
+                h = FakeBlob(path, by_ordinal={k: (STRAGGLER_S, then)})
+            r = SgzReader(h, preload=True)
+            got = canon(do_call(r, *args))          # args = the probe call
+        else:
+            if backend == 'file':
+                h = SlowCountingFile(path)
+                r = SgzReader(h)
+                h.slow = {h.n + k: STRAGGLER_S}
+                h.faults = {h.n + k: then} if then else {}
+            else:
+                h = FakeBlob(path)
+                r = SgzReader(h)
+                h.slow = {plan[k]: STRAGGLER_S}
+                h.faults = {plan[k]: then} if then else {}
+            got = canon(do_call(r, name, args))
+    except Exception as e:
+        raised = e
+    info['timeouts_shortened_so_far'] = sorted(set(TimeWarp.hits))
+    if then is None:
+        if raised is not None:
+            R.violation('oracle', info, f'no range read failed (one was only slow: it completed after {STRAGGLER_S} s) but the call '
+                                        f'raised {type(raised).__name__}: {raised}')
+        elif got != want:
+            R.violation('oracle', info, 'no range read failed (one was only slow) but the call returned data that differs from the '
+                                        'true data: the result depends on the timing of the range reads')
+    elif raised is None:
+        R.violation('oracle', info, f'a range read failed ({then}) after being outstanding for {STRAGGLER_S} s, longer than any '
+                                    'timeout the library waits with, and the call did not raise: it returned '
+                                    + ('data that differs from the true data' if got != want else 'a value'))
+    R.case(('timewarp', label, backend, name, tuple(args), k, then),
+           sample=info if then == 'exc' and spot == 'highest range' and name == 'read_crossline' else None)
+    R.count('timewarp_slow_only' if then is None else 'timewarp_slow_then_fault')
+
+
+def run_timewarp(files):
+    cases = timewarp_cases(files)
+    with TimeWarp():
+        with concurrent.futures.ThreadPoolExecutor(max_workers=12) as ex:
+            list(ex.map(run_timewarp_case, cases))
+    R.count('timewarp_timeouts_shortened', len(TimeWarp.hits))
+    R.notes.append(f'time warp: {len(cases)} straggler cases, {len(TimeWarp.hits)} library timeouts shortened to {WARP_S} s '
+                   f'({sorted(set(TimeWarp.hits))})')
+
+
 # ------------------------------------------------------------------------------------------------ generated fan-out terms
 def run_slots(label, path):
     """the range reads and destination slots that Gen/Faults.v records for the three I/O fan-outs, evaluated in Coq for
@@ -653,6 +970,14 @@ try:
         if QUICK and label in ('np_88', '2d_16'):
             continue
         run_blob(label, path, kind)
+    for label, path, kind in files:
+        run_blob_preload(label, path, kind, calls_for(path, kind))
+    # a data section of several MiB: a preload that is split into ranges (by size or per worker) issues several requests
+    big = os.path.join(d, 'np_big.sgz')
+    write_numpy_sgz(big, rnd_cube(rng, (100, 130, 300)), bpv=16)
+    run_blob_preload('np_big', big, '3d', [('read_volume', ()), ('read_inline', (57,)), ('read_crossline', (129,)), ('read_zslice', (150,)),
+                                             ('read_subvolume', (40, 90, 3, 127, 100, 299)), ('get_trace', (7777,))])
+    run_timewarp(files)
     # ---- the model on the same inputs
     if not a.no_model and MODEL_CASES:
         # group cases by (backend, L, plan) to keep terms short
